@@ -8,6 +8,8 @@ Core Lean only.
 -/
 import SemaModel.Base.DriverUtil
 import SemaModel.C11.Explore
+set_option linter.unusedSimpArgs false
+set_option linter.unusedVariables false
 namespace Sema.C11
 
 def parseCfgLine (line : String) : Option Cfg := do
